@@ -35,7 +35,7 @@ NUMERIC = {"Signed", "Unsigned", "Float", "SignedFixedPoint", "UnsignedFixedPoin
 
 
 def mk_engine(F):
-    eng = Engine(F, budget=4000000)
+    eng = Engine(F, budget=8000000, partition_budget=32768)
     eng.merge_returns = True
     eng.len_max = 65534  # I(Message): every string/raw length fits its 16-bit prefix (C01's well-formedness bound)
     eng.key_adts = set(KEY_ADTS)
